@@ -15,8 +15,12 @@ import (
 	"runtime/debug"
 	"runtime/pprof"
 	"sort"
+	"strconv"
+	"strings"
 	"sync/atomic"
+	"syscall"
 	"testing"
+	"unsafe"
 	"testing/synctest"
 	"time"
 
@@ -33,6 +37,7 @@ var (
 	fTrace   = flag.Bool("sim.trace", false, "include the driver trace and kernel log in the result")
 	fGenOnly = flag.Bool("sim.genonly", false, "only generate the plan and dump it")
 	fLogLvl  = flag.String("sim.loglevel", "ERROR", "rcproxy log level")
+	fBatch   = flag.String("sim.batch", "", "search accelerator: file with one 'profile variant seed' job per line; the jobs run one after the other in this process, each in a bubble of its own, and one result line each is appended to -sim.out (violations found this way are only candidates: the runner re-runs them in a process of their own)")
 )
 
 type Result struct {
@@ -55,6 +60,7 @@ type Result struct {
 	Error      string            `json:"error,omitempty"`
 	Converged  bool              `json:"converged"`
 	Extra      map[string]string `json:"extra,omitempty"`
+	Batch      bool              `json:"batch,omitempty"`
 }
 
 type ReplayFile struct {
@@ -85,9 +91,35 @@ func writeJSON(path string, v interface{}) {
 	}
 }
 
+func realNs() int64 {
+	var ts syscall.Timespec
+	syscall.Syscall(syscall.SYS_CLOCK_GETTIME, 1, uintptr(unsafe.Pointer(&ts)), 0)
+	return ts.Sec*1e9 + ts.Nsec
+}
+
+var timing = os.Getenv("SIM_TIMING") != ""
+var tPrev int64
+
+func mark(what string) {
+	if !timing {
+		return
+	}
+	n := realNs()
+	if tPrev != 0 {
+		fmt.Fprintf(os.Stderr, "timing %s %.1fms\n", what, float64(n-tPrev)/1e6)
+	}
+	tPrev = n
+}
+
 func TestSim(t *testing.T) {
+	mark("start")
+	runtime.VerifSetNoLockOSThread(os.Getenv("SIM_LOCKOSTHREAD") == "")
 	runtime.GOMAXPROCS(1)
 	debug.SetGCPercent(-1)
+	if *fBatch != "" {
+		runBatch(t)
+		return
+	}
 	prof, ok := Profiles[*fProfile]
 	if !ok {
 		fmt.Fprintln(os.Stderr, "sim: unknown profile", *fProfile)
@@ -170,72 +202,185 @@ func TestSim(t *testing.T) {
 		}
 	}()
 
+	mark("plan+logger")
 	synctest.Test(t, func(t *testing.T) {
-		runtime.VerifSetClockTick(50)
-		runtime.VerifSetRand(true, plan.Seed*0x9e3779b97f4a7c15+7)
-		k := NewKernel(tape, *fTrace)
-		k.Cfg = plan.Kernel
-		c := NewCluster(&plan.Topos[0], plan.Seed)
-		for i := range plan.Topos {
-			c.EnsureNodes(&plan.Topos[i])
-		}
-		c.Password = plan.Proxy.Password
-		d := &Driver{K: k, C: c, P: plan, T: tape, Counters: map[string]int{}, Progress: &progress, States: map[string]bool{},
-			Start: time.Now(), keepTrace: *fTrace}
-		for i := range plan.Events {
-			d.events = append(d.events, &plan.Events[i])
-		}
-		for _, kv := range plan.Prepop {
-			if o := plan.Topos[0].Owner(RefSlot([]byte(kv[0]))); o != nil {
-				c.Nodes[o.Addr].Store[kv[0]] = []byte(kv[1])
-			}
-		}
-		for i := range plan.Clients {
-			d.Clients = append(d.Clients, d.newClient(i, &plan.Clients[i]))
-		}
-		res := &Result{Seed: *fSeed, Profile: *fProfile, Variant: *fVariant, Prop: plan.Prop}
-		d.installHooks()
-		if prof.Run != nil {
-			prof.Run(d, res)
-		} else {
-			d.boot()
-			res.Converged = d.converge(15 * time.Second)
-			if !res.Converged {
-				res.Error = "proxy did not adopt the initial topology within 15 fake seconds"
-			} else {
-				d.workload()
-				d.settle()
-				if d.SettleExhausted {
-					res.Error = "settle phase step budget exhausted while bytes were still moving (harness limit, not a violation)"
-				} else {
-					prof.Check(d, res)
-				}
-			}
-		}
-		res.LogHash = k.LogHash()
-		res.PollHash = k.PollHash()
-		res.Steps = d.Step
-		res.FakeMs = time.Since(d.Start).Milliseconds()
-		res.Kernel = k.Stats
-		d.Counters["aux_dials"] = int(atomic.LoadInt64(&d.auxDials))
-		res.Counters = d.Counters
-		for s := range d.States {
-			res.States = append(res.States, s)
-		}
-		sort.Strings(res.States)
-		res.Violations = d.Viol
-		if *fTrace {
-			res.Trace = d.Trace
-			res.KLog = k.Lines()
-		}
+		res := simulate(plan, prof, tape, &progress, *fSeed, *fProfile, *fVariant)
 		if *fDump != "" {
 			writeJSON(*fDump, &ReplayFile{Seed: *fSeed, Profile: *fProfile, Variant: *fVariant, Plan: plan, Tape: tape.Rec, UseTape: true})
 		}
+		mark("check")
 		writeJSON(*fOut, res)
 		os.RemoveAll(logDir)
+		mark("write+cleanup")
 		if res.Error != "" {
 			os.Exit(4)
 		}
 		os.Exit(0)
 	})
+}
+
+// simulate runs one plan inside the calling goroutine's synctest bubble and returns the evaluated result.
+func simulate(plan *Plan, prof *Profile, tape *Tape, progress *int64, seed uint64, profile, variant string) *Result {
+	runtime.VerifSetClockTick(50)
+	runtime.VerifSetRand(true, plan.Seed*0x9e3779b97f4a7c15+7)
+	k := NewKernel(tape, *fTrace)
+	k.Cfg = plan.Kernel
+	c := NewCluster(&plan.Topos[0], plan.Seed)
+	for i := range plan.Topos {
+		c.EnsureNodes(&plan.Topos[i])
+	}
+	c.Password = plan.Proxy.Password
+	d := &Driver{K: k, C: c, P: plan, T: tape, Counters: map[string]int{}, Progress: progress, States: map[string]bool{},
+		Start: time.Now(), keepTrace: *fTrace}
+	for i := range plan.Events {
+		d.events = append(d.events, &plan.Events[i])
+	}
+	for _, kv := range plan.Prepop {
+		if o := plan.Topos[0].Owner(RefSlot([]byte(kv[0]))); o != nil {
+			c.Nodes[o.Addr].Store[kv[0]] = []byte(kv[1])
+		}
+	}
+	for i := range plan.Clients {
+		d.Clients = append(d.Clients, d.newClient(i, &plan.Clients[i]))
+	}
+	res := &Result{Seed: seed, Profile: profile, Variant: variant, Prop: plan.Prop}
+	d.installHooks()
+	if prof.Run != nil {
+		prof.Run(d, res)
+	} else {
+		mark("setup")
+		d.boot()
+		mark("boot")
+		res.Converged = d.converge(15 * time.Second)
+		mark("converge")
+		if !res.Converged {
+			res.Error = "proxy did not adopt the initial topology within 15 fake seconds"
+		} else {
+			d.workload()
+			mark("workload")
+			d.settle()
+			mark("settle")
+			if d.SettleExhausted {
+				res.Error = "settle phase step budget exhausted while bytes were still moving (harness limit, not a violation)"
+			} else {
+				prof.Check(d, res)
+			}
+		}
+	}
+	res.LogHash = k.LogHash()
+	res.PollHash = k.PollHash()
+	res.Steps = d.Step
+	res.FakeMs = time.Since(d.Start).Milliseconds()
+	res.Kernel = k.Stats
+	d.Counters["aux_dials"] = int(atomic.LoadInt64(&d.auxDials))
+	res.Counters = d.Counters
+	for s := range d.States {
+		res.States = append(res.States, s)
+	}
+	sort.Strings(res.States)
+	res.Violations = d.Viol
+	if *fTrace {
+		res.Trace = d.Trace
+		res.KLog = k.Lines()
+	}
+	return res
+}
+
+// genPlan draws the plan of (seed, profile, variant).
+func genPlan(seed uint64, profile, variant string) (*Plan, *Profile, bool) {
+	prof, ok := Profiles[profile]
+	if !ok {
+		return nil, nil, false
+	}
+	g := NewGen(seed, profile)
+	g.Plan.Variant = variant
+	g.Plan.Prop = prof.Prop
+	g.Plan.Proxy = DefaultProxy()
+	g.Plan.Sched = DefaultSched()
+	g.Plan.Kernel = KernelCfg{ClientSndCap: 1 << 20, BackendSndCap: 1 << 20}
+	prof.Gen(g)
+	return g.Plan, prof, true
+}
+
+// runBatch: several runs in one OS process (search accelerator, see DESIGN.md 12.6). Every run gets a new simulated kernel,
+// cluster, driver and bubble and a freshly booted proxy; the goroutines of earlier proxies stay parked for good because the
+// root goroutine of their bubble blocks on a channel from outside the bubble (not a durable block), so their fake clock
+// never advances again. rcproxy's process-global timeout tree is re-created between runs (overlay-added reset function).
+// What is NOT isolated: sync.Pool contents, Prometheus counters, request/fragment id counters. A violation seen here is
+// therefore only a candidate; the runner re-runs the job in a process of its own and reports only what reproduces there.
+var batchStuck = 120
+
+func runBatch(t *testing.T) {
+	if os.Getenv("SIM_BATCH_DEBUG") != "" {
+		batchStuck = 10
+	}
+	if !batchSupported {
+		fmt.Fprintln(os.Stderr, "sim: this binary was built without batch support")
+		os.Exit(6)
+	}
+	b, err := os.ReadFile(*fBatch)
+	if err != nil {
+		fmt.Fprintln(os.Stderr, "sim:", err)
+		os.Exit(4)
+	}
+	out, err := os.OpenFile(*fOut, os.O_CREATE|os.O_WRONLY|os.O_APPEND, 0o644)
+	if err != nil {
+		fmt.Fprintln(os.Stderr, "sim:", err)
+		os.Exit(4)
+	}
+	logDir := filepath.Join(os.TempDir(), fmt.Sprintf("simlog-%d-%d", os.Getpid(), time.Now().UnixNano()))
+	_ = os.MkdirAll(logDir, 0o700)
+	_ = logging.InitializeLogger(logging.WithPath(logDir), logging.WithExpireDay(1), logging.WithLogLevel(*fLogLvl))
+	var progress int64
+	go func() {
+		last, stuck := int64(-1), 0
+		for {
+			time.Sleep(500 * time.Millisecond)
+			cur := atomic.LoadInt64(&progress)
+			if cur == last {
+				stuck++
+			} else {
+				stuck = 0
+			}
+			last = cur
+			if stuck >= batchStuck {
+				// the runner re-runs the unfinished jobs of this batch one per process and classifies the stuck one there
+				fmt.Fprintln(os.Stderr, "SIM-WATCHDOG(batch): no driver progress for 60s real time")
+				if os.Getenv("SIM_BATCH_DEBUG") != "" {
+					pprof.Lookup("goroutine").WriteTo(os.Stderr, 2)
+					os.Exit(3)
+				}
+				os.RemoveAll(logDir)
+				os.Exit(3)
+			}
+		}
+	}()
+	never := make(chan struct{}) // created outside every bubble: blocking on it is not a durable block
+	for _, line := range strings.Split(string(b), "\n") {
+		f := strings.Split(line, "\t")
+		if len(f) != 3 {
+			continue
+		}
+		seed, _ := strconv.ParseUint(f[2], 10, 64)
+		plan, prof, ok := genPlan(seed, f[0], f[1])
+		if !ok || plan.Whitelist != nil {
+			continue // unknown profile, or one that needs process-wide real resources (inotify): the runner runs it alone
+		}
+		resetProxyGlobals()
+		tape := &Tape{rng: NewRng(seed).Derive("tape")}
+		resCh := make(chan *Result, 1)
+		go synctest.Test(t, func(t *testing.T) {
+			resCh <- simulate(plan, prof, tape, &progress, seed, f[0], f[1])
+			<-never
+		})
+		res := <-resCh
+		res.Batch = true
+		jb, _ := json.Marshal(res)
+		out.Write(append(jb, '\n'))
+		atomic.AddInt64(&progress, 1)
+		runtime.GC()
+	}
+	out.Close()
+	os.RemoveAll(logDir)
+	os.Exit(0)
 }
